@@ -63,9 +63,11 @@ func openStack(r *core.Run) {
 			for _, i := range seq {
 				in = append(in, []any{int(rgs[i].A), int(rgs[i].B)})
 			}
-			outs, err := s.Eval(map[string]any{"file": "big.bin", "ranges": in}, prog)
-			evals++
 			c := Case{Kind: "openstack", Args: map[string]any{"ranges": in}}
+			r.StepBegin("openstack", fmt.Sprintf("open|tobits slices %v", in), c)
+			outs, err := s.Eval(map[string]any{"file": "big.bin", "ranges": in}, prog)
+			r.StepEnd()
+			evals++
 			if err != nil || len(outs) != 1 {
 				r.Violate("openstack:error", fmt.Sprintf("open|tobits slices %v: outs=%v err=%v", in, outs, err), c)
 				return
@@ -145,7 +147,9 @@ func openStack(r *core.Run) {
 		if !r.Mine(int64(len(f))) {
 			continue
 		}
+		r.StepBegin("openstack:"+f, "all slices of "+f, Case{Kind: "openstack", Args: map[string]any{"file": f}})
 		outs, err := s.Eval(map[string]any{"file": f, "ranges": in}, prog)
+		r.StepEnd()
 		evals++
 		got, _ := func() ([]any, bool) {
 			if len(outs) == 1 {
